@@ -191,3 +191,6 @@ RULES = [
     ("C12.SHOW", "the display callbacks of the per-line writers show every non-empty text (whitespace-only output is output)", rule_show),
     ("C12.EOFMARK", "the interactive loop takes the empty string as end of input, so the real stdin reader must hand every entered line back with its terminator (shared with C14.KEEPNL)", rule_eofmark),
 ]
+
+
+RULES.append(("C12.STATECELL", "the state that is threaded from line to line obeys the NaN rule of the stack cell (shared with C01.NAN): NaN is stored on a non-empty stack and never at the bottom of an empty one", p_c01.rule_nan))
